@@ -34,6 +34,8 @@ type Timer struct {
 	ticker bool
 	cell   *Value
 	resets []Value
+	durFirst Value
+	viaAfter bool
 }
 
 func (t *Timer) String() string { return fmt.Sprintf("timer#%d", t.id) }
@@ -53,7 +55,7 @@ func (t *Timer) fire(r *Run) {
 func (e *Env) newTimer(dur Value, withChan bool) *Timer {
 	r := e.r
 	r.nextObj++
-	t := &Timer{id: r.nextObj, dur: dur, armed: true}
+	t := &Timer{id: r.nextObj, dur: dur, durFirst: dur, armed: true}
 	if withChan {
 		t.ch = r.newChan(1, r.P.NamedType("time", "Time"))
 	}
@@ -68,6 +70,9 @@ func (e *Env) optionalEvents(r *Run) []Event {
 	var out []Event
 	for _, t := range e.timers {
 		if t.armed {
+			if r.B.Params["fire_after_only"] == 1 && !t.viaAfter {
+				continue
+			}
 			out = append(out, t)
 		}
 	}
